@@ -177,9 +177,9 @@ theorem subtypesOK_sound (U : Ty → Prop) (hU : ClosedU U) (hBd : BoundsU U) (B
     refine ⟨?_, ?_⟩
     · cases getSub
       · simp only [Bool.false_eq_true, if_false] at h1 ⊢
-        exact isSubDTop_sound' hU hBd B hB τ r uτ (ur r hr) h1
+        exact isSubD_sound' hU hBd B hB _ τ r uτ (ur r hr) h1
       · simp only [if_true] at h1 ⊢
-        exact isSubDTop_sound' hU hBd B hB r τ (ur r hr) uτ h1
+        exact isSubD_sound' hU hBd B hB _ r τ (ur r hr) uτ h1
     · intro hc
       subst hc
       simpa using h2
@@ -205,8 +205,8 @@ theorem irrelevantOK_reject_sound (U : Ty → Prop) (hU : ClosedU U) (hBd : Boun
   simp only [Bool.and_eq_false_iff, Bool.not_eq_eq_eq_not] at h
   rcases h with (h | h) | h
   · exact Or.inl h
-  · exact Or.inr (Or.inl (isSubDTop_sound' hU hBd B hB _ _ ux ut h))
-  · exact Or.inr (Or.inr (isSubDTop_sound' hU hBd B hB _ _ ut ux h))
+  · exact Or.inr (Or.inl (isSubD_sound' hU hBd B hB _ _ _ ux ut h))
+  · exact Or.inr (Or.inr (isSubD_sound' hU hBd B hB _ _ _ ut ux h))
 
 /-- the full statement for accepted answers: unrelated in the declarative relation.  It needs
     completeness of the decider `isSubD` for `Asg U`, which is not proved (and does not hold in
@@ -221,8 +221,8 @@ def irrelevantOK_sound : Prop :=
     target in neither direction -/
 theorem irrelevantOK_sound_partial (B : List Ty) (anyT τ x : Ty) (hne : beq τ anyT = false)
     (h : irrelevantOK B anyT τ (some x) = true) :
-    x.isTCon = false ∧ isSubDTop B x (irrTarget anyT τ) = false ∧
-      isSubDTop B (irrTarget anyT τ) x = false := by
+    x.isTCon = false ∧ subJ B x (irrTarget anyT τ) = false ∧
+      subJ B (irrTarget anyT τ) x = false := by
   unfold irrelevantOK at h
   rw [if_neg (by simp [hne])] at h
   simp only [Bool.and_eq_true, Bool.not_eq_eq_eq_not, Bool.not_true] at h
